@@ -161,3 +161,37 @@ func H_C05_redefinition() {
 	vAssert("second", vAnd(g2.A == a2, vAnd(g2.B == "two", g2.C == c2)))
 	vAssert("third", vAnd(g3.A == a1, vAnd(g3.B == "one", g3.C == c1)))
 }
+
+type ZKeep struct {
+	A int32
+	P *ZInner
+	L []*ZInner
+}
+
+// H_C05_unknown_holds_shared: the peer's class has a field this side lacks, and an object first appears inside
+// it; known fields later refer back to that object. The skipped value must still count for the numbering.
+func H_C05_unknown_holds_shared() {
+	tm := map[string]reflect.Type{"ZKeep": reflect.TypeOf(ZKeep{}), "ZInner": reflect.TypeOf(ZInner{}), "[ZInner": reflect.TypeOf([]*ZInner{})}
+	n := vInt32("n")
+	first := refCat(refClassDef("ZInner", []string{"n", "s"}), []byte{0x61}, refInt(n), refStr("sh"))
+	var extra []byte
+	refOrd := byte(0x91) // root is #0, the shared object #1
+	switch vChoice("extra", 3) {
+	case 0:
+		extra = first
+	case 1: // inside a list: the list is #1, the object #2
+		extra = refCat([]byte{0x79}, first)
+		refOrd = 0x92
+	case 2: // inside a map: the map is #1, the object #2
+		extra = refCat([]byte{'H'}, refStr("k"), first, []byte{'Z'})
+		refOrd = 0x92
+	}
+	wire := refCat(refClassDef("ZKeep", []string{"extra", "a", "p", "l"}), []byte{0x60}, extra, refInt(5),
+		[]byte{0x51, refOrd}, []byte{0x7a}, []byte{0x51, refOrd}, []byte{0x51, refOrd})
+	out, err := ToObject(wire, tm)
+	vAssert("decode-noerr", err == nil)
+	g, ok := out.(*ZKeep)
+	vAssert("type", ok && g.A == 5)
+	vAssert("shared-kept", g.P != nil && len(g.L) == 2 && g.L[0] == g.P && g.L[1] == g.P)
+	vAssert("shared-value", g.P.N == n && g.P.S == "sh")
+}
